@@ -162,6 +162,46 @@ def run(ctx):
                   "bytes occupied by the literals section: compressed size, or 1 (RLE), or regenerated size (raw)", observed=(got or "")[:260])
     ctx.guard(RD, "dispatch", dispatch)
 
+    # (c0) the RLE slots persist across blocks (Repeat_Mode after RLE_Mode repeats the symbol): a sequence loop that
+    # does not consult a slot may only run when that slot is known to be empty *in the persistent state*
+    RL = "C01.slots.loop-dispatch"
+
+    def loop_dispatch():
+        body = ctx.hir(SSD + "::decode_sequences")
+        ix = hq.Index(body)
+        cf = hq.Canon(body, force=True)
+        slots_ = ("ll_rle", "ml_rle", "of_rle")
+        n = 0
+        for call in hq.find(body["body"], lambda x: x.get("k") == "Call" and H.strip_generics(H.callee(x) or "").startswith(SSD + "::decode_sequences_with")):
+            callee = H.strip_generics(H.callee(call))
+            cb = ctx.hir(callee)
+            reads = set()
+            for x, _ in H.walk(cb["body"]):
+                if x.get("k") == "Field" and x["name"] in slots_:
+                    reads.add(x["name"])
+            # which argument is the scratch (the value whose type has the slots)
+            known_none = set()
+            for p_ in ix.path_conditions(call):
+                if "expr" not in p_:
+                    continue
+                e, pos = hq.peel(p_["expr"]), p_.get("pos", True)
+                while e.get("k") == "Unary" and e["op"] == "!":
+                    e, pos = hq.peel(e["e"]), not pos
+                if e.get("k") == "MethodCall" and e["name"] in ("is_some", "is_none") and not e.get("args") and (e["name"] == "is_none") == pos:
+                    r = hq.peel(e["recv"])
+                    root, names = hq.field_chain(r)
+                    if names and names[-1] in slots_ and root.get("k") == "Local" and any(
+                            hq.peel(a).get("k") == "Local" and hq.peel(a).get("lid") == root.get("lid") or cf(a) == cf(root) for a in call["args"]):
+                        known_none.add(names[-1])
+            missing = sorted(set(slots_) - reads - known_none)
+            n += 1
+            ctx.check(not missing, RL, H.short(callee) + "::ignored-slots-known-empty", H.loc(body, call),
+                      "a sequence loop that never reads an RLE slot may only be entered when that slot of the persistent scratch state is None "
+                      "(a table in Repeat_Mode after RLE_Mode still uses the RLE symbol)", observed={"reads": sorted(reads), "known None at the call": sorted(known_none)},
+                      expected="slots neither read nor known None: none")
+        ctx.check(n == 2, RL, "decode_sequences::two-loops", body["file"], "decode_sequences dispatches to the two sequence loops", observed=n)
+    ctx.guard(RL, "loop_dispatch", loop_dispatch)
+
     # (c) per-mode slot effects
     RS = "C01.slots.mode-effects"
 
